@@ -1,8 +1,9 @@
 PROP = {
-    "kani_groups": ["hk_emit_min"],
+    "kani_groups": ["hk_emit_min", "hk_emit_std"],
     "smt": [],
     "technique": "bounded model checking (Kani/CBMC) of SpanGuard::new / SpanCtxt / default completion over symbolic span trees with a ghost trace tree",
     "functions": [
+        "impl Ctxt for {&C, Option<C>, Box<C>, Arc<C>, dyn ErasedCtxt, dyn ErasedCtxt + Send + Sync}: every method forwards to the same method of the wrapped context (c03c04_q_wrapper_*)",
         "emit::span::{SpanCtxt::{current, new_child, new_root, push, new}, SpanGuard::{new, push_ctxt, start, drop}, TraceId::{random, from_value}, SpanId::{random, from_value}, completion::Default::complete}",
         "emit::Frame::{push, disabled, call}, emit_core::emit",
     ],
